@@ -20,6 +20,11 @@ THEOREMS = [
     "Cog.Sem.C08_strict_counterexample_null_document",
     "Cog.Sem.C08.tvc_eq_violations", "Cog.Sem.C08.rtc_false_no_violations", "Cog.Sem.C08.sd_agree",
     "Cog.Sem.C08.leaf_agree",
+    # constraints through the FRONT-ENDS (c01-front builder; block at the end of Props/C08.lean)
+    "Cog.Sem.FE.C08_jsonschema_validate_end_to_end_partial", "Cog.Sem.FE.C08_jsonschema_validate_accepts_valid_partial",
+    "Cog.Sem.FE.C08_jsonschema_validate_single_fault_partial", "Cog.Sem.FE.C08_jsonschema_validate_counterexample",
+    "Cog.Sem.OA.C08_openapi_validate_end_to_end_partial", "Cog.Sem.OA.C08_openapi_validate_accepts_valid_partial",
+    "Cog.Front.Keeps.violations_flat", "Cog.Front.JsonSchema.keeps_object", "Cog.Front.OpenApi.keeps_object",
 ]
 FILES = HARNESS_BASE + ["lab_*.go", "src_*.go", "c08_*.go"]
 CORPUS = os.path.join(VERIF, "corpus", "C08.tsv")
@@ -344,6 +349,31 @@ class Runner:
                          "n_disagreements": len(self.disagree)}, found_input=False)
 
 
+
+# ---- BEGIN front-end keeps tie (owner: c01-front builder; verifkit/front_keeps.py) ------------------
+def front_keeps_tie(c):
+    """instances of C08_{jsonschema,openapi}_validate_end_to_end_partial on the REAL front-end IR: for every sub-document at a
+       flat object definition, the `Validate()` model on the pass models' output of the real IR = the violations of the struct
+       type written from the SOURCE keywords (and = `jsViolations` of the document when every member is present)"""
+    from verifkit import front_keeps
+    stats, bad, err = front_keeps.run(c)
+    c.oblige("front-end keeps streams run (c01-front, c01-front-oa)", err is None, err or "")
+    if err is not None:
+        return
+    for b in [b for b in bad if b["verb"].endswith("c08")][:3]:
+        c.violation(dict(b, kind="front-end-constraints-instance-fails",
+                         broken="C08_*_validate_end_to_end_partial: on the REAL front-end IR the Validate() model disagrees with the violations of the source keywords"))
+    for stream, key in (("c01-front", "JSON Schema"), ("c01-front-oa", "OpenAPI")):
+        st = stats.get(stream, {})
+        g = lambda k: st.get(k, 0)
+        c.oblige("%s: constraint keywords are kept by the REAL front-end (%d typed scalar properties, %d with constraints, all VIR-equal to `scalarOf`)" % (key, g("keeps.props"), g("keeps.cons")),
+                 g("keeps.kept") == g("keeps.props") and g("keeps.cons") >= 40 and g("bad_replies") == 0)
+        c.oblige("%s: C08 validate end-to-end instances hold (%d/%d sub-documents at flat objects; document-level jsViolations %d/%d)" % (key, g("c08.ok"), g("c08.inst"), g("c08.docok"), g("c08.docinst")),
+                 g("c08.ok") == g("c08.inst") and g("c08.docok") == g("c08.docinst") and g("c08.inst") >= 20)
+        c.cov["front_keeps_" + stream] = dict(st)
+# ---- END front-end keeps tie ------------------------------------------------------------------------
+
+
 def main():
     c = Check("C08")
     c.trusted = [
@@ -435,6 +465,7 @@ def main():
                              "faults_below_two_or_more_containers": dict(r.deep),
                              "stats": {k: v for k, v in st.items()}}
     c.cov["oracle_failures"] = st["oracle_failures"]
+    front_keeps_tie(c)   # constraints through the front-ends (JSON Schema, OpenAPI): instances on the real IR
     c.finish(cmd, rule,
              "Known findings are matched on the text of the shrunk failing case (format, fault kind, constructs on the "
              "fault path, source term at the fault, real outcomes, what the Lean specification says about the IR).")
